@@ -168,7 +168,7 @@ fn check_distribution(run: &Run, specs: &[StakeSpec], epoch: u64, label: &str) {
 }
 
 pub fn run(run: &Run) {
-    let max_n = if run.thorough() { 6 } else { 4 };
+    let max_n = if run.thorough() { 7 } else { 6 };
     let weights = [1u128, 2, 3];
     // all weight vectors for n = 1..max_n, one stake per key, active in epoch 0
     let mut dists: Vec<(Vec<StakeSpec>, u64, String)> = vec![];
